@@ -684,4 +684,134 @@ theorem query_ans_good (q : Query) {s : St} (h : Good s) : (query true q s).1 = 
   | unshrinkSelf => rfl
 
 
+/-! ### monotonicity of the abstract interpretation; loops -/
+
+
+
+structure Abs.LE (a b : Abs) : Prop where
+  pAnti : a.pAnti = true → b.pAnti = true
+  pCorn : a.pCorn = true → b.pCorn = true
+  pSlic : a.pSlic = true → b.pSlic = true
+  pWod : a.pWod = true → b.pWod = true
+  dAnti : a.dAnti = true → b.dAnti = true
+  dCorn : a.dCorn = true → b.dCorn = true
+  dSlic : a.dSlic = true → b.dSlic = true
+  dWodV : a.dWodV = true → b.dWodV = true
+  dWodM : a.dWodM = true → b.dWodM = true
+  dWodU : a.dWodU = true → b.dWodU = true
+  dWodR : a.dWodR = true → b.dWodR = true
+  varr : ∀ x, b.varr = some x → a.varr = some x
+  roTrue : b.roTrue = true → a.roTrue = true
+
+theorem Abs.le_iff (a b : Abs) : a.le b = true ↔ Abs.LE a b := by
+  obtain ⟨a1, a2, a3, a4, a5, a6, a7, a8, a9, a10, a11, av, ar⟩ := a
+  obtain ⟨b1, b2, b3, b4, b5, b6, b7, b8, b9, b10, b11, bv, br⟩ := b
+  constructor
+  · intro h
+    simp only [Abs.le, Bool.and_eq_true, Bool.or_eq_true, Bool.not_eq_true'] at h
+    obtain ⟨⟨⟨⟨⟨⟨⟨⟨⟨⟨⟨⟨h1, h2⟩, h3⟩, h4⟩, h5⟩, h6⟩, h7⟩, h8⟩, h9⟩, h10⟩, h11⟩, hv⟩, hr⟩ := h
+    refine ⟨?_, ?_, ?_, ?_, ?_, ?_, ?_, ?_, ?_, ?_, ?_, ?_, ?_⟩ <;> simp only <;> grind
+  · intro ⟨h1, h2, h3, h4, h5, h6, h7, h8, h9, h10, h11, hv, hr⟩
+    simp only at h1 h2 h3 h4 h5 h6 h7 h8 h9 h10 h11 hv hr
+    simp only [Abs.le, Bool.and_eq_true, Bool.or_eq_true, Bool.not_eq_true']
+    refine ⟨⟨⟨⟨⟨⟨⟨⟨⟨⟨⟨⟨?_, ?_⟩, ?_⟩, ?_⟩, ?_⟩, ?_⟩, ?_⟩, ?_⟩, ?_⟩, ?_⟩, ?_⟩, ?_⟩, ?_⟩ <;> grind
+
+theorem Abs.LE.refl (a : Abs) : Abs.LE a a := ⟨id, id, id, id, id, id, id, id, id, id, id, fun _ h => h, id⟩
+
+theorem Abs.LE.trans {a b c : Abs} (h : Abs.LE a b) (g : Abs.LE b c) : Abs.LE a c :=
+  ⟨fun x => g.pAnti (h.pAnti x), fun x => g.pCorn (h.pCorn x), fun x => g.pSlic (h.pSlic x), fun x => g.pWod (h.pWod x),
+   fun x => g.dAnti (h.dAnti x), fun x => g.dCorn (h.dCorn x), fun x => g.dSlic (h.dSlic x),
+   fun x => g.dWodV (h.dWodV x), fun x => g.dWodM (h.dWodM x), fun x => g.dWodU (h.dWodU x),
+   fun x => g.dWodR (h.dWodR x), fun x hx => h.varr x (g.varr x hx), fun x => h.roTrue (g.roTrue x)⟩
+
+theorem Abs.LE.top (a : Abs) : Abs.LE a Abs.top := by
+  constructor <;> simp [Abs.top]
+
+theorem Abs.LE.join_left (a b : Abs) : Abs.LE a (a.join b) := by
+  obtain ⟨a1, a2, a3, a4, a5, a6, a7, a8, a9, a10, a11, av, ar⟩ := a
+  obtain ⟨b1, b2, b3, b4, b5, b6, b7, b8, b9, b10, b11, bv, br⟩ := b
+  constructor <;> simp only [Abs.join] <;> grind
+
+theorem Abs.LE.join_right (a b : Abs) : Abs.LE b (a.join b) := by
+  obtain ⟨a1, a2, a3, a4, a5, a6, a7, a8, a9, a10, a11, av, ar⟩ := a
+  obtain ⟨b1, b2, b3, b4, b5, b6, b7, b8, b9, b10, b11, bv, br⟩ := b
+  constructor <;> simp only [Abs.join] <;> grind
+
+theorem Abs.LE.clean {a b : Abs} (h : Abs.LE a b) (c : b.clean = true) : a.clean = true := by
+  obtain ⟨_, _, _, _, h5, h6, h7, h8, h9, h10, h11, _, _⟩ := h
+  simp only [Abs.clean, Bool.and_eq_true, Bool.not_eq_true'] at c ⊢
+  grind
+
+/-- every abstract transfer function is monotone -/
+theorem absEvent_mono (e : Event) {a b : Abs} (h : Abs.LE a b) : Abs.LE (absEvent e a) (absEvent e b) := by
+  obtain ⟨a1, a2, a3, a4, a5, a6, a7, a8, a9, a10, a11, av, ar⟩ := a
+  obtain ⟨b1, b2, b3, b4, b5, b6, b7, b8, b9, b10, b11, bv, br⟩ := b
+  obtain ⟨h1, h2, h3, h4, h5, h6, h7, h8, h9, h10, h11, hv, hr⟩ := h
+  simp only at h1 h2 h3 h4 h5 h6 h7 h8 h9 h10 h11 hv hr
+  cases e with
+  | write at_ md =>
+    cases at_ <;> cases md <;> (constructor <;> simp only [absEvent] <;> grind)
+  | cacheDel k => cases k <;> (constructor <;> simp only [absEvent] <;> grind)
+  | cacheFreeze => constructor <;> simp only [absEvent] <;> grind
+  | _ => constructor <;> simp only [absEvent] <;> grind
+
+theorem absPath_mono (es : List Event) {a b : Abs} (h : Abs.LE a b) : Abs.LE (absPath es a) (absPath es b) := by
+  induction es generalizing a b with
+  | nil => exact h
+  | cons e es ih => exact ih (absEvent_mono e h)
+
+theorem absPath_append (es fs : List Event) (a : Abs) : absPath (es ++ fs) a = absPath fs (absPath es a) := by
+  induction es generalizing a with
+  | nil => rfl
+  | cons e es ih => exact ih _
+
+theorem absAlts_ge (alts : List (List Event)) (a : Abs) : Abs.LE a (absAlts alts a) := by
+  unfold absAlts
+  suffices h : ∀ acc, Abs.LE a acc → Abs.LE a (alts.foldl (fun acc es => acc.join (absPath es a)) acc) from
+    h a (Abs.LE.refl a)
+  induction alts with
+  | nil => intro acc h; exact h
+  | cons es alts ih => intro acc h; exact ih _ (h.trans (Abs.LE.join_left _ _))
+
+theorem absIter_ge (n : Nat) (alts : List (List Event)) (a : Abs) : Abs.LE a (absIter n alts a) := by
+  induction n generalizing a with
+  | zero => exact Abs.LE.refl a
+  | succ n ih => exact (absAlts_ge alts a).trans (ih _)
+
+/-- below a post-fixpoint of all the bodies, any sequence of iterations stays below it -/
+theorem iters_below {alts : List (List Event)} {x : Abs}
+    (hx : ∀ es ∈ alts, Abs.LE (absPath es x) x) (iters : List (List Event)) (hi : ∀ b ∈ iters, b ∈ alts)
+    {a : Abs} (ha : Abs.LE a x) : Abs.LE (absPath iters.flatten a) x := by
+  induction iters generalizing a with
+  | nil => exact ha
+  | cons b iters ih =>
+    simp only [List.flatten_cons, absPath_append]
+    exact ih (fun c hc => hi c (List.mem_cons_of_mem _ hc))
+      ((absPath_mono b ha).trans (hx b (hi b List.mem_cons_self)))
+
+theorem absSegs_top_or (segs : List Seg) {a b : Abs} (h : Abs.LE a b) (es : List Event) (he : Expands segs es) :
+    Abs.LE (absPath es a) (absSegs segs b) := by
+  induction he generalizing a b with
+  | nil => exact h
+  | straight _ ih =>
+    rw [absPath_append]
+    exact ih (absPath_mono _ h)
+  | @loop alts iters rest segs hi _ ih =>
+    rw [absPath_append]
+    simp only [absSegs, absSeg]
+    cases hc : (alts.all fun es => (absPath es (absIter 16 alts b)).le (absIter 16 alts b)) with
+    | false => exact ih (Abs.LE.top _)
+    | true =>
+      have hx : ∀ es ∈ alts, Abs.LE (absPath es (absIter 16 alts b)) (absIter 16 alts b) := by
+        intro es hes
+        exact (Abs.le_iff _ _).mp (List.all_eq_true.mp hc es hes)
+      exact ih (iters_below hx iters hi (h.trans (absIter_ge 16 alts b)))
+
+/-- **every unrolling of a segmented path that passes the check satisfies the policy** -/
+theorem segsOK_expands {segs : List Seg} (h : segsOK segs = true) {es : List Event} (he : Expands segs es) :
+    pathOK es = true := by
+  simp only [segsOK, Bool.and_eq_true] at h
+  simp only [pathOK, Bool.and_eq_true]
+  exact ⟨(absSegs_top_or segs (Abs.LE.refl _) es he).clean h.1, (absSegs_top_or segs (Abs.LE.refl _) es he).clean h.2⟩
+
 end PMV.Cache
